@@ -184,13 +184,15 @@ class Task(Fut):
         if self._done:
             return False
         self._num_cancels += 1
+        if self._waiting is not None and self._waiting.cancel():
+            # as asyncio does: the future the task is waiting on is cancelled (whoever else holds it sees a cancelled future
+            # from now on); its done-callback wakes the task, which finds CancelledError when it asks for the result
+            return True
+        self._must_cancel = True
         if self._waiting is not None:
             w, self._waiting = self._waiting, None
             w.remove_done_callback(self._wakeup)
-            self._must_cancel = True
             self._loop.ready.append((self._step, ()))
-        else:
-            self._must_cancel = True
         return True
 
     def _wakeup(self, fut: Fut) -> None:
